@@ -106,6 +106,12 @@ ApplySetMetadata(S, a, target, key) ==
   THEN [Bump(S) EXCEPT !.meta[target][key] = i]
   ELSE Bump(S)
 
+(* the same with the empty string as value (-2): a key that is there with nothing in it is there, and is not overridden either *)
+ApplySetMetadataEmpty(S, a, target, key) ==
+  IF target \in 1..S.n /\ S.meta[target][key] = 0
+  THEN [Bump(S) EXCEPT !.meta[target][key] = -2]
+  ELSE Bump(S)
+
 ApplyNoOp(S, a) == Bump(S)
 
 (* one API call *)
@@ -121,6 +127,7 @@ Apply(S, c) ==
     [] c.k = "labelf"   -> ApplyLabelChange(S, c.a, c.add, c.rem)
     [] c.k = "label"    -> ApplyChangeLabels(S, c.a, c.add, c.rem)
     [] c.k = "meta"     -> ApplySetMetadata(S, c.a, Target(S, c.t), c.key)
+    [] c.k = "metaempty" -> ApplySetMetadataEmpty(S, c.a, Target(S, c.t), c.key)
     [] c.k = "noop"     -> ApplyNoOp(S, c.a)
 
 RECURSIVE Compile(_, _)
